@@ -41,27 +41,28 @@ use mcx::{json, rayon::prelude::*, Args, Level, Report, Value};
 
 use crate::{
     interpose::{self, Rec},
+    props::errfam,
     policy::{encode, Action, ScriptStore, VecSink, Wop},
     store::{cmd_id, hash128, k, TestCmd, K},
 };
 
-type Sp = LinearStorageProvider<FileManager>;
-type Bufs = RuntimeBuffers<<Sp as StorageProvider>::Segment>;
+pub(crate) type Sp = LinearStorageProvider<FileManager>;
+pub(crate) type Bufs = RuntimeBuffers<<Sp as StorageProvider>::Segment>;
 
 const NAMES: [&str; 2] = ["n0", "n1"];
 
-fn ins(n: &str, key: K, v: &str) -> Wop {
+pub(crate) fn ins(n: &str, key: K, v: &str) -> Wop {
     Wop::Ins(n.into(), key, v.as_bytes().to_vec())
 }
-fn del(n: &str, key: K) -> Wop {
+pub(crate) fn del(n: &str, key: K) -> Wop {
     Wop::Del(n.into(), key)
 }
 
-fn short(id: &[u8]) -> String {
+pub(crate) fn short(id: &[u8]) -> String {
     format!("{:02x}{:02x}..{:02x}{:02x}{:02x}", id[0], id[1], id[29], id[30], id[31])
 }
 
-fn dump_facts<Q: Query>(q: &Q, what: &str) -> Result<String, String> {
+pub(crate) fn dump_facts<Q: Query>(q: &Q, what: &str) -> Result<String, String> {
     let mut s = String::new();
     for n in NAMES {
         s.push_str(&format!("{n}{{"));
@@ -131,7 +132,7 @@ fn observe(sp: &mut Sp, gid: GraphId) -> Result<String, String> {
     Ok(out)
 }
 
-fn parent_short(p: &Prior<Address>) -> String {
+pub(crate) fn parent_short(p: &Prior<Address>) -> String {
     match p {
         Prior::None => "-".into(),
         Prior::Single(a) => format!("{}@{}", short(a.id.as_bytes()), a.max_cut),
@@ -139,7 +140,7 @@ fn parent_short(p: &Prior<Address>) -> String {
     }
 }
 
-fn open_client(dir: &Path) -> Result<ClientState<ScriptStore, Sp>, String> {
+pub(crate) fn open_client(dir: &Path) -> Result<ClientState<ScriptStore, Sp>, String> {
     let fm = FileManager::new(dir).map_err(|e| format!("FileManager::new: {e:?}"))?;
     Ok(ClientState::new(ScriptStore, LinearStorageProvider::new(fm)))
 }
@@ -152,7 +153,7 @@ struct Recorded {
     steps: Vec<&'static str>,
 }
 
-fn tc(n: u64, parent: Prior<Address>, ops: &[Wop]) -> (TestCmd, Address) {
+pub(crate) fn tc(n: u64, parent: Prior<Address>, ops: &[Wop]) -> (TestCmd, Address) {
     let mc = match parent {
         Prior::None => 0,
         Prior::Single(a) => a.max_cut.get() + 1,
@@ -168,7 +169,7 @@ fn tc(n: u64, parent: Prior<Address>, ops: &[Wop]) -> (TestCmd, Address) {
     (TestCmd { id, parent, prio, data }, Address { id, max_cut: MaxCut::new(mc) })
 }
 
-fn merge_of(n: u64, a: Address, b: Address) -> (TestCmd, Address) {
+pub(crate) fn merge_of(n: u64, a: Address, b: Address) -> (TestCmd, Address) {
     let p = if a.id < b.id { Prior::Merge(a, b) } else { Prior::Merge(b, a) };
     tc(n, p, &[])
 }
@@ -214,7 +215,7 @@ fn record(dir: &Path, thorough: bool) -> Result<Recorded, String> {
     // only that record): a transaction that is offered only commands the graph already holds
     // commits the unchanged single head and reuses its fact index.
     let known = [c_a1.clone(), c_a2.clone()];
-    let mut recommit = |client: &mut ClientState<ScriptStore, Sp>, bufs: &mut Bufs, sink: &mut VecSink| -> Result<(), String> {
+    let recommit = |client: &mut ClientState<ScriptStore, Sp>, bufs: &mut Bufs, sink: &mut VecSink| -> Result<(), String> {
         let mut trx = client.transaction(gid);
         let n = client.add_commands(&mut trx, sink, &known, bufs, MemSpill::new).map_err(|x| format!("workload: re-delivery failed: {x:?}"))?;
         if n != 0 {
@@ -641,12 +642,16 @@ pub fn run(args: &Args) {
             rep.sample(json!({"crash_after_ops": c.prefix, "commits_returned": k, "pattern": c.desc, "recovered_commit": recovered}));
         }
     }
+    // error-return family (no crash): one intercepted call fails per run.  Only what C15 states is
+    // judged here (reopen after the failure / final reopen); the same-handle clauses are C07/C08.
+    let efam = errfam::run_family(&mut rep, errfam::Mode::C15, scratch.path(), args.tier);
+    *outcomes.entry("violation").or_default() += efam.violations;
     drop(scratch);
     for (k2, v) in &outcomes {
         rep.outcome(k2, *v);
     }
     rep.sample(json!({"workload": rec.steps, "log_length": rec.log.len(), "log_head": rec.log.iter().take(14).map(|r| match r { Rec::Write { off, data } => format!("pwrite({off},{}B)", data.len()), Rec::Falloc { end } => format!("fallocate(..{end})"), Rec::Sync => "sync".into(), Rec::Marker(k) => format!("CommitReturned({k})") }).collect::<Vec<_>>()}));
-    rep.set("evaluations", evaluated.load(Relaxed));
+    rep.set("evaluations", evaluated.load(Relaxed) + efam.runs);
     rep.set("crash_cases_judged", judged);
     rep.set("crash_cases_enumerated", en.contexts.len() as u64);
     rep.set("distinct_images", en.recipes.len() as u64);
@@ -672,6 +677,7 @@ pub fn run(args: &Args) {
     rep.assume("writes issued after a completed sync cannot reach the disk before that sync's writes (no reordering across a completed sync); unsynced writes persist independently of each other");
     rep.assume("torn writes are prefixes: sector-atomic at 512-byte boundaries, plus sub-sector prefixes (1, len/2, len-1 bytes) for writes shorter than a sector");
     rep.assume("in the checking phase fallocate is forwarded as a size extension (identical file content); recording uses the real fallocate");
+    rep.assume("error-return family: a call that returns an error is judged like a crash at that point followed by a reopen ('commit in progress' = the step that returned Err); a failed graph creation only has to return Err");
     rep.finish()
 }
 
@@ -679,6 +685,12 @@ fn replay(args: &Args, rec: &Recorded, scratch: mcx::Scratch, path: &Path) -> ! 
     let txt = std::fs::read_to_string(path).unwrap_or_else(|e| mcx::machinery_error(&format!("replay file: {e}")));
     let v: Value = mcx::serde_json::from_str(&txt).unwrap_or_else(|e| mcx::machinery_error(&format!("replay file: {e}")));
     let r = &v["replay"];
+    if r.get("error_case").is_some() {
+        let root = scratch.path().to_path_buf();
+        let code = errfam::replay_case(args, errfam::Mode::C15, &root, r, path);
+        drop(scratch);
+        std::process::exit(code)
+    }
     if r["tier"].as_str().is_some_and(|t| t != args.tier.as_str()) {
         mcx::machinery_error("replay file was recorded for the other tier's workload: pass the matching --tier");
     }
@@ -710,3 +722,4 @@ fn replay(args: &Args, rec: &Recorded, scratch: mcx::Scratch, path: &Path) -> ! 
         std::process::exit(1)
     }
 }
+
